@@ -13,16 +13,17 @@ import (
 // reads the call history of the Run phase.
 
 type c19Case struct {
-	App     *AppDecl
-	Decl    *Decl
-	Second  *Decl
-	Tokens  []string // the tokens bound to the probe, as Set must see them, in command-line order
-	Tokens2 []string
-	Argv    []string
-	Env     EnvState
-	Shape   string
-	Policy  int // index into policies
-	Stream  StreamPlan
+	App      *AppDecl
+	Decl     *Decl
+	Second   *Decl
+	Tokens   []string // the tokens bound to the probe, as Set must see them, in command-line order
+	Tokens2  []string
+	Argv     []string
+	Env      EnvState
+	EnvAfter *EnvState // when set: installed between the declarations and Run (the value must not hear of it)
+	Shape    string
+	Policy   int // index into policies
+	Stream   StreamPlan
 }
 
 func (c *c19Case) Describe() interface{} {
@@ -159,6 +160,14 @@ func (c19Prop) genOneOpt(t *Tape, allowLong bool) *c19Case {
 	if t.Draw(4) == 0 {
 		c.Stream = drawStream(t)
 	}
+	if allowLong && nEnv > 0 && (methods+shapeSel+n)%3 == 0 {
+		// (a function of the case, not a draw) every listed variable gets a new value once the declarations are made
+		late := c.Env
+		for _, k := range d.EnvVars {
+			late.Set(k, "late"+fmt.Sprint(k))
+		}
+		c.EnvAfter = &late
+	}
 
 	// command-line tokens
 	argv := []string{"app"}
@@ -175,8 +184,13 @@ func (c19Prop) genOneOpt(t *Tape, allowLong bool) *c19Case {
 	for i := 0; i < n; i++ {
 		if isArg {
 			tok := t.Pick(valToks)
-			if t.Draw(6) == 0 {
+			switch t.Draw(6) {
+			case 0:
 				tok = "--" // after the leading `--` a further `--` is an operand like any other
+			case 1:
+				if allowLong {
+					tok = "" // an empty string is an operand like any other
+				}
 			}
 			c.Tokens = append(c.Tokens, tok)
 			posToks = append(posToks, tok)
@@ -323,9 +337,15 @@ func c19Prepare(c *c19Case, id int) *Prepared {
 	var inst *Instance
 	body := func() error {
 		inst = Build(c.App, p)
+		if c.EnvAfter != nil {
+			c.EnvAfter.Apply() // too late: the declarations have read the environment
+		}
 		return inst.Cli.Run(c.Argv)
 	}
 	return &Prepared{Proc: p, Body: body, Finish: func(st *Stats) *Violation {
+		if c.EnvAfter != nil {
+			st.Count("fired.env_set_between_declaration_and_run")
+		}
 		if v := c19Verdict(c, p, inst, st); v != nil {
 			return v
 		}
